@@ -62,7 +62,8 @@ Content(kind, f, t) ==
 
 Init ==
   /\ fs = [f \in AllFiles |-> IF f = "main" /\ StartWithMain THEN [exists |-> TRUE, mtime |-> 1, content |-> Content("new", "main", 1)] ELSE Absent]
-  /\ dirs = [d \in {"d1", "d2", "d3"} |-> [exists |-> d # "d3", mtime |-> 1]]
+  \* the policy directories exist from the start, or are only created with the first entry put into them
+  /\ \E de \in BOOLEAN : dirs = [d \in {"d1", "d2", "d3"} |-> [exists |-> d # "d3" /\ de, mtime |-> IF de THEN 1 ELSE 0]]
   /\ clock = 1
   /\ st = InitLoader
   /\ synced = FALSE
@@ -82,7 +83,7 @@ InitAll ==
   /\ dirs = [d \in {"d1", "d2", "d3"} |-> [exists |-> d # "d3", mtime |-> 7]]
   /\ clock = 8 /\ st = InitLoader /\ synced = FALSE /\ lastop = "init" /\ removed = FALSE /\ nreg = Len(Defaults) /\ enfnew = EnforceNew
 
-BumpDir(f, t) == IF DirOfFile(f) = "none" THEN dirs ELSE [dirs EXCEPT ![DirOfFile(f)].mtime = t]
+BumpDir(f, t) == IF DirOfFile(f) = "none" THEN dirs ELSE [dirs EXCEPT ![DirOfFile(f)] = [exists |-> TRUE, mtime |-> t]]
 
 Drops(old, new) == \E n \in Names : old[n].k # "none" /\ new[n].k = "none"
 Write(f, kind) ==
